@@ -46,27 +46,28 @@ Proof.
   destruct (badish (step s c)); [discriminate|]. now apply IH.
 Qed.
 
-Lemma nosplit_app p : forall s b s1 q,
-  nosplit s b p = Some s1 -> nosplit s b (p ++ q) = nosplit s1 (started b p) q.
+Lemma nosplit_app p : forall s br b s1 br1 q,
+  nosplit s br b p = Some (s1, br1) -> nosplit s br b (p ++ q) = nosplit s1 br1 (started b p) q.
 Proof.
-  induction p as [|c p IH]; simpl; intros s b s1 q H; [congruence|].
-  destruct (neutral s && b && is_sep c); [discriminate|].
-  destruct (badish (step s c)); [discriminate|].
-  rewrite (IH _ _ _ _ H). destruct p; reflexivity.
+  induction p as [|c p IH]; cbn [nosplit app]; intros s br b s1 br1 q H.
+  - injection H as <- <-. reflexivity.
+  - destruct (boundary s br && b && is_sep c); [discriminate|].
+    destruct (badish (step s c)); [discriminate|].
+    rewrite (IH _ _ _ _ _ _ H). destruct p; reflexivity.
 Qed.
 
-Lemma nn_nosplit p : forall s b s', nn s p = Some s' -> nosplit s b p = Some s'.
+Lemma nn_nosplit p : forall s br b s', nn s p = Some s' -> nosplit s br b p = Some (s', br).
 Proof.
-  induction p as [|c p IH]; simpl; intros s b s' H; [congruence|].
-  destruct (neutral s); [discriminate|]. simpl.
+  induction p as [|c p IH]; cbn [nn nosplit]; intros s br b s' H; [congruence|].
+  unfold boundary, br_step. destruct (neutral s); [discriminate|]. cbn [andb].
   destruct (badish (step s c)); [discriminate|]. now apply IH.
 Qed.
 
-Lemma nosplit_inl p : forall s b s', nosplit s b p = Some s' -> inl s p = Some s'.
+Lemma nosplit_inl p : forall s br b s' br', nosplit s br b p = Some (s', br') -> inl s p = Some s'.
 Proof.
-  induction p as [|c p IH]; simpl; intros s b s' H; [congruence|].
-  destruct (neutral s && b && is_sep c); [discriminate|].
-  destruct (badish (step s c)); [discriminate|]. now apply IH with (b := true).
+  induction p as [|c p IH]; cbn [nosplit inl]; intros s br b s' br' H; [congruence|].
+  destruct (boundary s br && b && is_sep c); [discriminate|].
+  destruct (badish (step s c)); [discriminate|]. now apply IH with (b := true) (br := br_step s br c) (br' := br').
 Qed.
 
 (** ---- depth shifting ---- *)
@@ -118,20 +119,20 @@ Qed.
 (** a piece that leaves the automaton where it was, at any depth *)
 Definition bal (p : str) : Prop := inl (Norm, 0) p = Some (Norm, 0).
 
-Definition tokp (t : str) : Prop := t <> [] /\ nosplit (Norm, 0) false t = Some (Norm, 0).
+Definition tokp (t : str) : Prop := t <> [] /\ nosplit (Norm, 0) 0 false t = Some ((Norm, 0), 0).
 
 Lemma tokb_tokp t : tokb t = true <-> tokp t.
 Proof.
   unfold tokb, tokp. destruct t as [|c t].
   - split; [discriminate|intros [H _]; congruence].
-  - destruct (nosplit (Norm, 0) false (c :: t)) as [[m d]|].
-    + destruct m, d; split; intros H; try discriminate; try (split; [discriminate|reflexivity]);
+  - destruct (nosplit (Norm, 0) 0 false (c :: t)) as [[[m d] br]|].
+    + destruct m, d, br; split; intros H; try discriminate; try (split; [discriminate|reflexivity]);
         try reflexivity; destruct H as [_ H]; discriminate.
     + split; [discriminate|intros [_ H]; discriminate].
 Qed.
 
 Lemma tokp_bal t : tokp t -> bal t.
-Proof. intros [_ H]. exact (nosplit_inl _ _ _ _ H). Qed.
+Proof. intros [_ H]. exact (nosplit_inl _ _ _ _ _ _ H). Qed.
 
 Lemma bal_at p d : bal p -> inl (Norm, d) p = Some (Norm, d).
 Proof. intros H. apply (inl_shift p Norm 0 Norm 0 d); [discriminate|exact H]. Qed.
@@ -157,35 +158,39 @@ Qed.
 Lemma tokp_paren inner : bal inner -> tokp (LP :: inner ++ [RP]).
 Proof.
   intros H. split; [discriminate|].
-  cbn [nosplit]. change (neutral (Norm, 0) && false && is_sep LP) with false. cbn iota.
+  cbn [nosplit]. change (boundary (Norm, 0) 0 && false && is_sep LP) with false. cbn iota.
   change (step (Norm, 0) LP) with (Norm, 1). cbn [badish fst].
+  change (br_step (Norm, 0) 0 LP) with 0.
   pose proof (inl_deep_nn inner Norm 0 Norm 0 0 ltac:(discriminate) H) as Hn.
   cbn [Nat.add] in Hn.
-  rewrite (nosplit_app inner (Norm, 1) true (Norm, 1) [RP]); [|now apply nn_nosplit].
+  rewrite (nosplit_app inner (Norm, 1) 0 true (Norm, 1) 0 [RP]); [|now apply nn_nosplit].
   reflexivity.
 Qed.
 
 (** bytes that are neither separators nor openers of strings/literals/lists *)
 Definition plain_byte (c : ascii) : bool :=
   negb (Ascii.eqb c SP) && negb (Ascii.eqb c DQ) && negb (Ascii.eqb c LP) && negb (Ascii.eqb c RP)
-  && negb (Ascii.eqb c LB) && negb (Ascii.eqb c CR) && negb (Ascii.eqb c LF).
+  && negb (Ascii.eqb c LB) && negb (Ascii.eqb c CR) && negb (Ascii.eqb c LF)
+  && negb (Ascii.eqb c LSB) && negb (Ascii.eqb c RSB).
 
-Lemma step_plain d c : plain_byte c = true -> step (Norm, d) c = (Norm, d) /\ is_sep c = false.
+Lemma step_plain d c : plain_byte c = true ->
+  step (Norm, d) c = (Norm, d) /\ is_sep c = false /\ forall br, br_step (Norm, d) br c = br.
 Proof.
-  unfold plain_byte, is_sep. intros H.
+  unfold plain_byte, is_sep, br_step. intros H.
   repeat (apply andb_true_iff in H; destruct H as [H ?]).
   repeat match goal with H : negb _ = true |- _ => apply negb_true_iff in H end.
   cbn [step]. unfold step_norm.
   repeat match goal with H : Ascii.eqb c _ = false |- _ => rewrite H; clear H end.
-  split; reflexivity.
+  repeat split; try reflexivity. intros br. destruct (neutral (Norm, d)); reflexivity.
 Qed.
 
-Lemma nosplit_plain p : forall d b, forallb plain_byte p = true -> nosplit (Norm, d) b p = Some (Norm, d).
+Lemma nosplit_plain p : forall d br b, forallb plain_byte p = true ->
+  nosplit (Norm, d) br b p = Some ((Norm, d), br).
 Proof.
-  induction p as [|c p IH]; intros d b H; [reflexivity|].
+  induction p as [|c p IH]; intros d br b H; [reflexivity|].
   cbn [forallb] in H. apply andb_true_iff in H as [Hc Hp].
-  destruct (step_plain d c Hc) as [Hs Hsep].
-  cbn [nosplit]. rewrite Hsep, andb_false_r, Hs. cbn [badish fst]. now apply IH.
+  destruct (step_plain d c Hc) as (Hs & Hsep & Hbr).
+  cbn [nosplit]. rewrite Hsep, andb_false_r, Hs, Hbr. cbn [badish fst]. now apply IH.
 Qed.
 
 Lemma tokp_plain p : p <> [] -> forallb plain_byte p = true -> tokp p.
@@ -193,31 +198,31 @@ Proof. intros Hne H. split; [exact Hne|]. now apply nosplit_plain. Qed.
 
 (** ---- take / tokens round trip ---- *)
 
-Lemma take_nosplit t : forall s b s' acc x,
-  nosplit s b t = Some s' -> take s b acc (t ++ x) = take s' (started b t) (rev t ++ acc) x.
+Lemma take_nosplit t : forall s br b s' br' acc x,
+  nosplit s br b t = Some (s', br') -> take s br b acc (t ++ x) = take s' br' (started b t) (rev t ++ acc) x.
 Proof.
-  induction t as [|c t IH]; cbn [nosplit app]; intros s b s' acc x H.
-  - injection H as <-. reflexivity.
-  - cbn [take]. destruct (neutral s && b && is_sep c); [discriminate|].
+  induction t as [|c t IH]; cbn [nosplit app]; intros s br b s' br' acc x H.
+  - injection H as <- <-. reflexivity.
+  - cbn [take]. destruct (boundary s br && b && is_sep c); [discriminate|].
     destruct (badish (step s c)); [discriminate|].
-    rewrite (IH _ _ _ (c :: acc) x H). cbn [rev]. rewrite <- app_assoc. cbn [app started].
+    rewrite (IH _ _ _ _ _ (c :: acc) x H). cbn [rev]. rewrite <- app_assoc. cbn [app started].
     destruct t; reflexivity.
 Qed.
 
 Lemma take_tok t c r : tokp t -> is_sep c = true ->
-  take (Norm, 0) false [] (t ++ c :: r) = Some (t, c :: r).
+  take (Norm, 0) 0 false [] (t ++ c :: r) = Some (t, c :: r).
 Proof.
-  intros [Hne H] Hc. rewrite (take_nosplit _ _ _ _ [] (c :: r) H).
+  intros [Hne H] Hc. rewrite (take_nosplit _ _ _ _ _ _ [] (c :: r) H).
   destruct t as [|a t]; [congruence|]. cbn [started take].
-  change (neutral (Norm, 0)) with true. rewrite Hc. cbn [andb].
+  change (boundary (Norm, 0) 0) with true. rewrite Hc. cbn [andb].
   rewrite app_nil_r, rev_involutive. reflexivity.
 Qed.
 
-Lemma take_tok_end t : tokp t -> take (Norm, 0) false [] t = Some (t, []).
+Lemma take_tok_end t : tokp t -> take (Norm, 0) 0 false [] t = Some (t, []).
 Proof.
-  intros [Hne H]. rewrite <- (app_nil_r t) at 1. rewrite (take_nosplit _ _ _ _ [] [] H).
+  intros [Hne H]. rewrite <- (app_nil_r t) at 1. rewrite (take_nosplit _ _ _ _ _ _ [] [] H).
   destruct t as [|a t]; [congruence|]. cbn [started take].
-  change (neutral (Norm, 0)) with true. cbn [andb].
+  change (boundary (Norm, 0) 0) with true. cbn [andb].
   rewrite app_nil_r, rev_involutive. reflexivity.
 Qed.
 
